@@ -61,7 +61,7 @@ class _OnlyUnitary:
 def _op_makers(rng):
     import cirq
 
-    e = rng.choice([1, 0.5, -0.5, 0.25, -0.25, 0.37, 2, 1.5, -1, 3, 0, 1e-7, 0.123456789012])
+    e = rng.choice([1, 0.5, -0.5, 0.25, -0.25, 0.37, 2, 1.5, -1, 3, 0, 1e-7, 0.123456789012, 1.000004, 0.999996, -2.999995, 2.000003, 0.5000004])   # incl. values a tolerance would round to a special case
     s = rng.choice([0, 0, 0, -0.5, 0.25])
     u2, u4 = _special_unitaries(rng)
     one = [lambda q: cirq.XPowGate(exponent=e, global_shift=s)(q[0]), lambda q: cirq.YPowGate(exponent=e, global_shift=s)(q[0]),
